@@ -155,14 +155,14 @@ def plan(thorough):
     # ... x environment on the aligned patterns (EnvPattern): the pairwise covering family (the zoo section takes its environments from the
     # first run as well), every environment in the thorough tier's "geom" run
     ginv = ("GeoAgree", "SizeIsDenseShape", "GeoCover", "StackIsBlock")
-    einv = ("EnvCover", "EnvVisible", "ZooDiagCover")
+    einv = ("EnvCover", "EnvVisible", "ZooDiagCover", "DiagRelCover", "DiagRelDiscriminates")
     run("geo", 2, 3, 1, None, inv=ginv + einv, workers=4, geos=GEOS_COVER, jobexpr=GEO_PATTERNS % (2 if thorough else 1), envs=ENVS_COVER)
     run("geo2", 2, 3, 2, None, inv=ginv + einv, workers=4, geos=GEOS_COVER, jobexpr=GEO_PATTERNS % 1, envs=ENVS_COVER)
     if thorough:
         # more geometries on the patterns with data batch rank <= 1 (stub and zoo), and EVERY assignment of points to rows (n1 = n2 = 2),
         # unbatched and with an aligned batch (the stub only)
-        run("geom", 2, 3, 1, None, inv=ginv[:2] + ginv[3:] + einv[:2], workers=4, geos=GEOS_MORE, jobexpr=GEO_PATTERNS % 1, envs=ENVS_ALL)
-        run("geoall", 2, 2, 1, fams([U, P_RANK1[0]], ["geo"]), inv=ginv[:2] + ginv[3:], workers=8, geos="all")
+        run("geom", 2, 3, 1, None, inv=ginv[:2] + ginv[3:] + einv[:2] + einv[4:], workers=4, geos=GEOS_MORE, jobexpr=GEO_PATTERNS % 1, envs=ENVS_ALL)
+        run("geoall", 2, 2, 1, fams([U, P_RANK1[0]], ["geo"]), inv=ginv[:2] + ginv[3:] + einv[4:], workers=8, geos="all")
     return R
 
 
@@ -382,8 +382,10 @@ def label_rows(torch, cfg, pat, fam=None, geo=None, which="12"):
     gr = geo_rows(fam, geo)
     lu = iota(D1 + (n1,)) if gr is None else kz.label_rows(D1, gr[0])
     lv = iota(D2 + (n2,)) if gr is None else kz.label_rows(D2, gr[1])
-    if which == "11":
+    if which in ("11", "1c"):
         lv = lu
+    elif which == "1h":
+        lv = lv[..., :n1]
     elif which == "ss":
         bd = bshape(D1, D2)
         lu = lv = torch.cat([lu.expand(*bd, n1), lv.expand(*bd, n2)], -1)
@@ -424,7 +426,8 @@ def setup(cfg, pat, kname, square=False, fam=None, geo=None, which="12"):
     """(kernel, x1, x2, lazy K, dense D) for a run configuration, a broadcast pattern and a kernel name; None when the
     kernel cannot be evaluated densely on this pattern at all (outside its domain: not a C06 question).  The stub's rows carry
     the labels of the spec (Iota, or the geometry in family 'geo'); a real kernel's rows are the points of `geo` realised in its
-    input space.  which: '12' kernel(x1, x2), '11' kernel(x1, x1), 'ss' kernel(xs, xs) with xs = cat(x1, x2)."""
+    input space.  which: '12' kernel(x1, x2), '11' kernel(x1, x1) (one tensor object), '1c' kernel(x1, x1.clone()), '1h' kernel(x1, x2[..., :n1, :]) (another
+    tensor with the same number of rows), 'ss' kernel(xs, xs) with xs = cat(x1, x2)."""
     import gpytorch
     from checks import c06_kernels as kz
     torch = core.setup_torch()
@@ -442,8 +445,10 @@ def setup(cfg, pat, kname, square=False, fam=None, geo=None, which="12"):
             k.train(_ENV[0][0] == "train")
         lu, lv = label_rows(torch, cfg, pat, fam, geo, which)
         x1, x2 = kz.label_inputs_from(lu, ad[0] if ad else 0), kz.label_inputs_from(lv, ad[0] if ad else 0)
-        if which != "12":
+        if which in ("11", "ss"):
             x2 = x1
+        elif which == "1c":
+            x2 = x1.clone()
     else:
         z = kz.by_name(kname)
         if PB and not z.batch:
@@ -457,6 +462,10 @@ def setup(cfg, pat, kname, square=False, fam=None, geo=None, which="12"):
             x1, x2 = kz.inputs(z, D1, n1, sd + 1), kz.inputs(z, D2, n2, sd + 2)
         if which == "11":
             x2 = x1
+        elif which == "1c":
+            x2 = x1.clone()
+        elif which == "1h":
+            x2 = x2[..., : x1.shape[-2], :].clone()
         elif which == "ss":
             bd = bshape(D1, D2)
             x1 = x2 = torch.cat([x1.expand(*bd, *x1.shape[-2:]), x2.expand(*bd, *x2.shape[-2:])], -2)
@@ -574,7 +583,41 @@ def describe(cfg, pat, hist, fam=None, geo=None):
 
 REL_OPS = {"diag11": "kernel(x1, x1): diag=True / .diagonal() against the diagonal of the dense matrix",
            "diagstack": "kernel(xs, xs), xs = cat(x1, x2): diag=True / .diagonal() against the diagonal of the dense matrix",
-           "stack": "kernel(xs, xs)[..., :n1*t, n1*t:], xs = cat(x1, x2), against dense kernel(x1, x2)"}
+           "stack": "kernel(xs, xs)[..., :n1*t, n1*t:], xs = cat(x1, x2), against dense kernel(x1, x2)",
+           "diag12": "kernel(x1, xr): diag=True / .diagonal() / forward(diag=True) against the diagonal of the dense matrix, xr"}
+XREL = {"same": ("11", "= x1 (the same tensor object)"), "clone": ("1c", "= x1.clone()"), "rows": ("1h", "= x2[..., :n1, :] (another tensor with as many rows)")}
+# the derivative kernels refuse a diagonal request with x1 != x2 explicitly (the documented precondition of diag=True): not decided for them
+REFUSAL = "diag=True only works when x1 == x2"
+
+
+def diag_forms(torch, k, xa, xb):
+    """The REQUEST FORMS of the diagonal of kernel(xa, xb) (same number of rows): [(name, thunk)].  kernel.forward gets what Kernel.__call__ would
+    hand it (the columns of the kernel's own active_dims; one object twice when xb is xa) and may return the diagonal unexpanded."""
+    import gpytorch
+
+    def lz(flag, fn):
+        def g():
+            with gpytorch.settings.lazily_evaluate_kernels(flag):
+                return dense_of(fn())
+        return g
+
+    def fwd():
+        ad = k.active_dims
+        a = xa if ad is None else xa.index_select(-1, ad)
+        b = a if xb is xa else (xb if ad is None else xb.index_select(-1, ad))
+        return k.forward(a, b, diag=True)
+    return [("kernel(x1, xr, diag=True)", lz(True, lambda: k(xa, xb, diag=True))), ("kernel(x1, xr, diag=True) eager", lz(False, lambda: k(xa, xb, diag=True))),
+            ("kernel(x1, xr).diagonal()", lz(True, lambda: k(xa, xb).diagonal())), ("kernel.forward(x1, xr, diag=True)", lz(True, fwd))]
+
+
+def fit_forward(torch, name, got, ref):
+    """kernel.forward has no contract to expand its diagonal to the full broadcast batch shape"""
+    if "forward" in name and hasattr(got, "shape") and tuple(got.shape) != tuple(ref.shape):
+        try:
+            return got.expand(ref.shape)
+        except RuntimeError:
+            return got
+    return got
 
 
 def cell_of(cfg, pat, hist):
@@ -701,6 +744,26 @@ def _replay_state(torch, cfg, pat, hist, knames, thorough, fam=None, geo=None):
         out.extend(pr)
         if kn == "stub":
             stub_pure = not pr
+        if square and kn != "stub" and len(hist) == 1 and cfg["n1"] == cfg["n2"]:
+            # ... and of kernel(x1, x2) with DIFFERENT inputs of the same number of rows (what the stub sees in this state), every request form
+            su2 = setup(cfg, pat, kn, False, fam, geo)
+            if su2 is not None:
+                k2, y1, y2, _, D2 = su2
+                r2 = dict(key=key0 + [kn, "x1!=x2"], ok=True, nontrivial=True, n=0)
+                for name, fn in diag_forms(torch, k2, y1, y2):
+                    okf, got = core.guarded(fn)
+                    if not okf and REFUSAL in str(got):
+                        break
+                    r2["n"] += 1
+                    okc, msg = (False, "raised %s" % got) if not okf else compare(torch, fit_forward(torch, name, got, D2.diagonal(dim1=-1, dim2=-2)), D2.diagonal(dim1=-1, dim2=-2), exact=False)[::2]
+                    if not okc:
+                        r2.update(ok=False, sig="C06/diagonal/%s/x1!=x2/%s" % ("t1" if cfg["t"] == 1 else "mt", kn),
+                                  detail="%s [kernel %s, x1 and x2 different tensors] [%s]: differs from the diagonal of the dense matrix: %s" % (desc, kn, name, msg),
+                                  case=dict(kind="state", cfg=cfg, pat=[list(x) for x in pat], hist=hist, kernel=kn, fam=fam, geo=geo))
+                        break
+                if r2["n"]:
+                    out.append(r2)
+                    out.extend(pure_result(torch, cfg, pat, hist, kn, False, key0 + ["x1!=x2"], stub_pure, r2, fam=fam, geo=geo))
     return out
 
 
@@ -711,6 +774,9 @@ def replay_rel(torch, cfg, pat, hist, desc, fam, geo):
     last = hist[-1]
     op = last["op"]
     which = "11" if op == "diag11" else "ss"
+    if op == "diag12":
+        which = XREL[str(last["arg"][0])][0]
+        desc += " " + XREL[str(last["arg"][0])][1]
     t, n1 = cfg["t"], cfg["n1"]
     Lab = label_dense(torch, cfg, pat, fam, geo, which)
     ref = Lab.diagonal(dim1=-1, dim2=-2) if op != "stack" else Lab[..., : n1 * t, n1 * t:]
@@ -718,9 +784,9 @@ def replay_rel(torch, cfg, pat, hist, desc, fam, geo):
         return [dict(machinery="LazyKernel.tla disagrees with torch on the label tensor for %s: spec err=%s shape=%s, torch shape=%s" % (desc, last["eerr"], list(last["eshape"]), list(ref.shape)))]
     if op == "stack" and not torch.equal(ref, label_dense(torch, cfg, pat, fam, geo)):
         return [dict(machinery="the block of the stacked label tensor is not the label tensor of kernel(x1, x2) for %s" % desc)]
-    key0 = [cfg["t"], cfg["n1"], cfg["n2"], list(cfg["tails"]), list(cfg["ad"]), [list(x) for x in pat], [[op, [], []]], geo, env_name(_ENV[0])]
+    key0 = [cfg["t"], cfg["n1"], cfg["n2"], list(cfg["tails"]), list(cfg["ad"]), [list(x) for x in pat], [[op, [], [str(x) for x in last["arg"]]]], geo, env_name(_ENV[0])]
     su = setup(cfg, pat, "stub", False, fam, geo, which)
-    k, xa, _, K, D = su
+    k, xa, xb, K, D = su
     tk = "t1" if t == 1 else "mt"
     case = dict(kind="state", cfg=cfg, pat=[list(x) for x in pat], hist=hist, kernel="stub", fam=fam, geo=geo)
     res = dict(key=key0 + ["stub"], ok=True, nontrivial=True, n=1,
@@ -737,18 +803,21 @@ def replay_rel(torch, cfg, pat, hist, desc, fam, geo):
         return g
     if op == "stack":
         forms = [("lazy", lz(True, lambda: K[..., : n1 * t, n1 * t:])), ("eager", lz(False, lambda: dense_of(k(xa, xa))[..., : n1 * t, n1 * t:]))]
+    elif op == "diag12":
+        forms = diag_forms(torch, k, xa, xb) + ([("kernel(x1, diag=True)", lz(True, lambda: k(xa, diag=True)))] if xb is xa else [])
     else:
         forms = [("kernel(x, x, diag=True) lazy", lz(True, lambda: k(xa, xa, diag=True))), ("kernel(x, x, diag=True) eager", lz(False, lambda: k(xa, xa, diag=True))),
                  ("kernel(x, diag=True)", lz(True, lambda: k(xa, diag=True))), ("kernel(x, x).diagonal()", lz(True, lambda: k(xa, xa).diagonal()))]
+    relsig = "C06/%s/%s/%s" % (op, tk, "plain" if op != "diag12" else str(last["br"][0]).replace("rel:", "x2-"))
     for name, fn in forms:
         res["n"] += 1
         okf, got = core.guarded(fn)
         if not okf:
-            res.update(ok=False, sig="C06/%s/%s/plain" % (op, tk), case=case, detail="%s [%s]: raised %s" % (desc, name, got))
+            res.update(ok=False, sig=relsig, case=case, detail="%s [%s]: raised %s" % (desc, name, got))
             break
-        okc, kind, msg = compare(torch, got, ref, exact=True)
+        okc, kind, msg = compare(torch, fit_forward(torch, name, got, ref), ref, exact=True)
         if not okc:
-            res.update(ok=False, sig="C06/%s/%s/plain" % (op, tk), case=case, detail="%s [%s]: differs from the labels the relation selects (%s): %s" % (desc, name, kind, msg))
+            res.update(ok=False, sig=relsig, case=case, detail="%s [%s]: differs from the labels the relation selects (%s): %s" % (desc, name, kind, msg))
             break
     if res["ok"] != bool(last["agree"]):
         res["drift_kind"] = "refuted" if res["ok"] else "unpredicted"
@@ -1065,6 +1134,23 @@ def _zoo_worker(item):
                             with gpytorch.settings.lazily_evaluate_kernels(True):
                                 return k(x1, x1).diagonal()
                         rel("K.diagonal()", kd, dref)
+                        # ... for every RELATION between the two inputs (Diag12 of LazyKernel.tla): an equal copy of x1, and another tensor with as many rows
+                        # (the first n1 rows of x2: paired by broadcasting when the batch shapes differ), in every request form
+                        xc, xh = x1.clone(), x2[..., :n1, :].clone()
+                        with gpytorch.settings.lazily_evaluate_kernels(False):
+                            okh, E1h = core.guarded(lambda: dense_of(k(x1, xh)))
+                        fc, fh = diag_forms(torch, k, x1, xc), diag_forms(torch, k, x1, xh)
+                        for nm, (fname, fn) in (("pair(clone):diag=True", fc[0]), ("pair(clone):K.diagonal()", fc[2]), ("pair(clone):forward(diag=True)", fc[3])):
+                            rel(nm, lambda fn=fn, fname=fname: fit_forward(torch, fname, fn(), dref), dref)
+                        rel("pair(same):forward(diag=True)", lambda: fit_forward(torch, "forward", diag_forms(torch, k, x1, x1)[3][1](), dref), dref)
+                        if okh:
+                            href = E1h.diagonal(dim1=-1, dim2=-2)
+                            okr, gotr = core.guarded(fh[0][1])
+                            if not okr and REFUSAL in str(gotr) and z.struct == "grad":
+                                out.append(dict(key=["zoo", z.name, pat, use_ad, gk_, "diag-x1!=x2-refused"], ok=True, nontrivial=False))
+                            else:
+                                for nm, (fname, fn) in zip(["pair(%s):%s" % ("bcast" if D1 != D2 else "rows", f) for f in ("diag=True", "diag=True(eager)", "K.diagonal()", "forward(diag=True)")], fh):
+                                    rel(nm, lambda fn=fn, fname=fname: fit_forward(torch, fname, fn(), href), href)
                     if z.stack:
                         xs = torch.cat([x1.expand(*B, n1, x1.shape[-1]), x2.expand(*B, n2, x2.shape[-1])], -2)
                         for lz in (True, False):
@@ -1197,7 +1283,9 @@ def run(ck):
                "(exact) and on zoo kernels (1e-10, rows = the points of DataGeo: origin, unit, rows shared by x1 and x2); plus (broadcast pattern x data geometry x "
                "relation) of the geo runs on the stub (exact; equal points = equal labels); plus zoo kernel x broadcast pattern x geometry (generic random rows "
                "and every TLC-enumerated geometry: origin / unit / lattice rows, coincident rows, rows shared by x1 and x2, realised per kernel) x relation "
-               "(lazy-vs-eager, transpose, diag, diag of the stacked input, stacked block, active_dims twin, batch index, purity of the kernel object), and on the aligned patterns x "
+               "(lazy-vs-eager, transpose, diag, diag of the stacked input, stacked block, active_dims twin, batch index, purity of the kernel object; the diagonal of kernel(x1, xr) for every relation of "
+               "LazyKernel.tla Diag12 - xr the same tensor / an equal copy / the first n1 rows of x2 (another tensor, paired by broadcasting when the batch shapes differ) - x request form: "
+               "diag=True lazy and eager, .diagonal() of the lazy tensor, kernel.forward(diag=True)), and on the aligned patterns x "
                "{generic rows, first geometry} x every TLC-enumerated environment (train / eval mode, sgpr_diagonal_correction, use_toeplitz: a pairwise covering family) again every relation; plus every KernelPure.tla history evaluate -> derive -> evaluate the ORIGINAL "
                "again (structures plain / Scale / Additive / Product / nested, label and real compositions) and diag-layout case (n, d, order) decoded "
                "on the ARD derivative kernels.  non-trivial = valid operation whose result is non-empty and differs from the untouched tensor (index selects a "
@@ -1207,7 +1295,9 @@ def run(ck):
                       "index tensors are 1-d LongTensors in adjacent positions (the forms numpy and torch agree on); steps are positive",
                       "last_dim_is_batch (deprecated) is not exercised; KeOps / CUDA kernels are outside the domain",
                       "a (kernel, pattern) whose EAGER dense evaluation itself raises is outside the kernel's domain and is skipped (batch-mode support is C08's question)",
-                      "diag=True is compared only for x1 == x2 (its documented precondition)",
+                      "the diagonal is requested for every relation between x1 and x2 (the same tensor, an equal copy, another tensor with the same number of rows, batch shapes that broadcast) "
+                      "in every request form (kernel(x1, x2, diag=True) lazy / eager, kernel(x1, x2).diagonal(), kernel.forward(.., diag=True), whose result may be left unexpanded); the derivative "
+                      "kernels refuse x1 != x2 explicitly (RuntimeError 'diag=True only works when x1 == x2', the documented precondition): not decided for them, any other raise is a failure",
                       "a relation is stated between two readings under the SAME environment (mode of the kernel object, sgpr_diagonal_correction, use_toeplitz, both set before either side is "
                       "evaluated); a lazy tensor created under one environment and evaluated under another is not decided; the environments of the zoo are a family containing every pair of "
                       "setting values (not every triple) on the aligned broadcast patterns",
@@ -1312,7 +1402,7 @@ def run(ck):
                 unpred += 1
             elif not r["predicted"]:
                 pess += 1
-    need = ["diag11", "diagstack", "stack", "fast", "getitem", "squeeze", "absorbed", "t1", "mt-divided", "mt-nonslice", "mt-step", "mt-indivisible", "x-direct", "x-expanded", "k-same", "k-getitem",
+    need = ["diag11", "diagstack", "stack", "diag12", "rel:same", "rel:clone", "rel:rows", "rel:bcast", "shortcut-agrees", "shortcut-differs", "fast", "getitem", "squeeze", "absorbed", "t1", "mt-divided", "mt-nonslice", "mt-step", "mt-indivisible", "x-direct", "x-expanded", "k-same", "k-getitem",
             "k-expanded", "ad-kept"] + (["ad-changed"] if "active_dims_buffer" not in REPAIRS_IN_TREE else []) + ["transpose", "unsqueeze", "repeat", "diagonal", "kgetitem", "kexpand", "dense"]
     for b in need:
         if b not in seen and not only:
